@@ -20,6 +20,9 @@ fn emit<W: Write>(w: &mut W, prop: &str, kind: &str, lines: &[String], replies: 
         all.push("====".into());
         all.extend(replies.iter().cloned());
     }
+    if !crate::findlayer::shard_take() {
+        return;
+    }
     let req = format!("FIND {} {} {}", prop, kind, hex(&all.join("\n")));
     let ans = crate::findlayer::answer_find(&req);
     let _ = writeln!(w, "F\t{}\t{}", req, ans);
